@@ -75,14 +75,17 @@ NOBODY = ["release_hashmap", "vm_hashmap_new", "vm_hashmap_get", "vm_hashmap_set
 
 def release_obligations():
     obs = []
-    gi = ["--enforce-contract-rec", "vm_release"]
-    for f in NOBODY:
-        gi += ["--remove-function-body", f]
+    helper = {"array": "release_array", "struct": "release_struct", "union": "release_union", "tuple": "release_tuple",
+              "closure": "release_closure"}
     for nm, k in KINDS.items():
+        gi = ["--enforce-contract-rec", "vm_release"]
+        # bodies not needed by this kind are removed (a call to one of them is then an assert(false): proves it unreachable)
+        for f in NOBODY + [h for kk, h in helper.items() if kk != nm]:
+            gi += ["--remove-function-body", f]
         obs.append(dict(id="C14.heap.release." + nm, prop="C14", harness=HEAP, entry="h_release", annotate=HANN,
                         defines={"VERIF_HKIND": k}, gi_flags=gi, loops=True, unwind="auto", strength="X",
                         functions=["vm_release", "release_array", "release_struct", "release_union", "release_tuple", "release_closure"],
-                        timeout=900, must_have=[r"vm_release\.postcondition", r"COVER"], min_checks=30))
+                        timeout=240, must_have=[r"vm_release\.postcondition", r"COVER"], min_checks=30))
     return obs
 
 
